@@ -297,17 +297,29 @@ func verIndex(vers []Ver, pkg, ver string) int {
 // NPMReqs is the requirement alphabet; NPMSat the hand satisfaction table over the version alphabet.
 var NPMReqs = []string{"^1.0.0", "^2.0.0", "*", "1.0.0", "latest", ">=1.1.0", ">=2.0.0-rc.0"}
 
+// NPMZeroReqs is the requirement alphabet of the zero-major / twin-spelling family.
+var NPMZeroReqs = []string{"^0.0.3", "~0.0.3", "^0.0", "^0", "0.0.x", "*", "0.0.3", "^1.0.0"}
+
+// NPMSat covers both version alphabets: {1.0.0, 1.1.0, 2.0.0-rc.1, 2.0.0} and, for the zero family,
+// {0.0.3, 0.0.4, 0.1.0, 1.0.0, 1.0.0+b} (node-semver: ^0.0.z is exactly 0.0.z, ~0.0.z and ^0.0 are 0.0.*, ^0 is
+// 0.*; build metadata is ignored, so 1.0.0+b satisfies whatever 1.0.0 does).
 var NPMSat = map[string]map[string]bool{
-	"^1.0.0":       {"1.0.0": true, "1.1.0": true},
+	"^1.0.0":       {"1.0.0": true, "1.1.0": true, "1.0.0+b": true},
 	"^2.0.0":       {"2.0.0": true},
-	"*":            {"1.0.0": true, "1.1.0": true, "2.0.0": true},
-	"1.0.0":        {"1.0.0": true},
+	"*":            {"1.0.0": true, "1.1.0": true, "2.0.0": true, "0.0.3": true, "0.0.4": true, "0.1.0": true, "1.0.0+b": true},
+	"1.0.0":        {"1.0.0": true, "1.0.0+b": true},
 	">=1.1.0":      {"1.1.0": true, "2.0.0": true},
 	">=2.0.0-rc.0": {"2.0.0-rc.1": true, "2.0.0": true},
+	"^0.0.3":       {"0.0.3": true},
+	"~0.0.3":       {"0.0.3": true, "0.0.4": true},
+	"^0.0":         {"0.0.3": true, "0.0.4": true},
+	"^0":           {"0.0.3": true, "0.0.4": true, "0.1.0": true},
+	"0.0.x":        {"0.0.3": true, "0.0.4": true},
+	"0.0.3":        {"0.0.3": true},
 }
 
-// NPMOrder is the ascending order of the version alphabet.
-var NPMOrder = map[string]int{"1.0.0": 1, "1.1.0": 2, "2.0.0-rc.1": 3, "2.0.0": 4}
+// NPMOrder is the ascending order of the version alphabets; 1.0.0 and 1.0.0+b have one precedence.
+var NPMOrder = map[string]int{"0.0.3": -3, "0.0.4": -2, "0.1.0": -1, "1.0.0": 1, "1.0.0+b": 1, "1.1.0": 2, "2.0.0-rc.1": 3, "2.0.0": 4}
 
 func npmDef() sysDef {
 	return sysDef{
@@ -335,14 +347,22 @@ func npmDef() sysDef {
 				r.Alias = "x"
 			}
 		},
-		// package.json keys are unique: one version cannot declare two dependencies under one alias
+		// package.json keys are unique: one version cannot declare two dependencies under one alias, nor an alias
+		// that spells the name of another package it depends on
 		valid: func(u *Universe) bool {
 			for _, v := range u.Vers {
 				n := 0
+				keys := map[string]bool{}
 				for _, r := range v.Reqs {
+					k := r.Pkg
 					if r.Alias != "" {
 						n++
+						k = r.Alias
 					}
+					if keys[k] {
+						return false
+					}
+					keys[k] = true
 				}
 				if n > 1 {
 					return false
@@ -369,9 +389,32 @@ func npmDef() sysDef {
 	}
 }
 
-// NPMSpaces returns the npm families of DESIGN §6.6(a): the empty base and a
-// diamond-with-conflict template that forces nested installs.
+// npmZeroDef is a second, small npm alphabet: zero-major versions (where ^ and ~ mean something else) and two
+// spellings of one precedence (1.0.0, 1.0.0+b).
+func npmZeroDef() sysDef {
+	d := npmDef()
+	d.vers = []Ver{
+		{Pkg: "r", Ver: "1.0.0", Tags: "latest"},
+		{Pkg: "a", Ver: "1.0.0"}, {Pkg: "a", Ver: "1.0.0+b"},
+		{Pkg: "c", Ver: "0.0.3"}, {Pkg: "c", Ver: "0.0.4"}, {Pkg: "c", Ver: "0.1.0", Tags: "latest"},
+	}
+	d.targets = []string{"a", "c"}
+	d.reqs = NPMZeroReqs
+	d.decor = []string{"opt", "dev"}
+	return d
+}
+
+// NPMSpaces returns the npm families of DESIGN §6.6(a): the empty base, a diamond-with-conflict template that
+// forces nested installs, and the zero-major / twin-spelling template.
 func NPMSpaces() []*Space {
+	z := npmZeroDef()
+	zi := func(p, v string) int { return verIndex(z.vers, p, v) }
+	zero := []tmplReq{
+		{zi("r", "1.0.0"), Req{Pkg: "a", Ver: "^1.0.0"}},
+		{zi("r", "1.0.0"), Req{Pkg: "c", Ver: "^0.0.3"}},
+		{zi("a", "1.0.0"), Req{Pkg: "c", Ver: "~0.0.3"}},
+		{zi("a", "1.0.0+b"), Req{Pkg: "c", Ver: "^0.0"}},
+	}
 	d := npmDef()
 	vi := func(p, v string) int { return verIndex(d.vers, p, v) }
 	diamond := []tmplReq{
@@ -381,7 +424,7 @@ func NPMSpaces() []*Space {
 		{vi("b", "1.0.0"), Req{Pkg: "c", Ver: "^2.0.0"}},
 		{vi("c", "2.0.0"), Req{Pkg: "a", Ver: "^2.0.0"}},
 	}
-	return []*Space{newSpace(d, "empty", nil), newSpace(d, "diamond", diamond)}
+	return []*Space{newSpace(d, "empty", nil), newSpace(d, "diamond", diamond), newSpace(z, "zero", zero)}
 }
 
 // ---------------- Maven ----------------
@@ -457,7 +500,16 @@ func MavenSpaces() []*Space {
 		{vi("g:b", "1"), Req{Pkg: "g:c", Ver: "1"}},
 		{vi("g:c", "2"), Req{Pkg: "g:b", Ver: "1", Excl: "g:a"}},
 	}
-	return []*Space{newSpace(d, "empty", nil), newSpace(d, "chain", chain), newSpace(d, "tree", tree), newSpace(d, "nested-excl", nested)}
+	// excluded declaration nearer than the live one: r -> a [excl g:c], a@1 -> c 2 (excluded), r -> b, b@1 -> c 1:
+	// the excluded declaration must not take part in choosing c's version
+	exclVer := []tmplReq{
+		{vi("g:r", "1"), Req{Pkg: "g:a", Ver: "1", Excl: "g:c"}},
+		{vi("g:a", "1"), Req{Pkg: "g:c", Ver: "2"}},
+		{vi("g:r", "1"), Req{Pkg: "g:b", Ver: "1"}},
+		{vi("g:b", "1"), Req{Pkg: "g:a", Ver: "1"}},
+		{vi("g:b", "1"), Req{Pkg: "g:c", Ver: "1"}},
+	}
+	return []*Space{newSpace(d, "empty", nil), newSpace(d, "chain", chain), newSpace(d, "tree", tree), newSpace(d, "nested-excl", nested), newSpace(d, "excl-version", exclVer)}
 }
 
 // ---------------- PyPI ----------------
